@@ -68,12 +68,17 @@ type zzC03Entry struct {
 	Fam  string `json:"fam"`
 	Bits []int  `json:"bits"`
 	ID   string `json:"id"`
+	// Sp is "lower" or, for a ClientID entry written in another letter case,
+	// "mixed".
+	Sp string `json:"sp"`
 }
 
 // zzC03Pat is a blocked-hosts pattern of the spec.
 type zzC03Pat struct {
 	K string   `json:"k"`
 	N []string `json:"n"`
+	// Qt restricts the rule to one query type ($dnstype=Qt) unless empty.
+	Qt string `json:"qt"`
 }
 
 // zzC03Vec is one vector emitted by TLC: either the universe or one
@@ -83,6 +88,7 @@ type zzC03Vec struct {
 	Addrs      []zzC03Addr  `json:"addrs"`
 	IDs        []string     `json:"ids"`
 	Names      [][]string   `json:"names"`
+	Qtypes     []string     `json:"qtypes"`
 	Allowed    []zzC03Entry `json:"allowed"`
 	Disallowed []zzC03Entry `json:"disallowed"`
 	Hosts      []zzC03Pat   `json:"hosts"`
@@ -441,7 +447,10 @@ type zzC03Conc struct {
 	labels       map[string]string
 	ids          map[string]string
 	unmaskedCIDR bool
-	rng          *rand.Rand
+	// flipIDs renders every ClientID entry in the other spelling class (lower
+	// <-> another letter case): used to post the same lists respelled.
+	flipIDs bool
+	rng     *rand.Rand
 }
 
 var zzC03Labels = map[string]string{"a": "ads", "b": "beta", "xa": "xads"}
@@ -561,6 +570,10 @@ func (c *zzC03Conc) form(a netip.Addr, form string) (b netip.Addr) {
 func (c *zzC03Conc) entry(e zzC03Entry) (s string) {
 	switch e.K {
 	case "id":
+		if (e.Sp == "mixed") != c.flipIDs {
+			return zzC03Spell(c.rng, c.id(e.ID), "mixed")
+		}
+
 		return c.id(e.ID)
 	case "ip":
 		return c.addr(e.Fam, e.Bits).String()
@@ -628,8 +641,14 @@ func (c *zzC03Conc) pattern(p zzC03Pat) (s string) {
 		s = "||" + n + "^"
 	case "wild":
 		s = "*." + n
+	case "all":
+		s = "||*^"
 	default:
 		s = n
+	}
+
+	if p.Qt != "" {
+		s += "$dnstype=" + p.Qt
 	}
 
 	return s
@@ -1175,6 +1194,50 @@ func (z *zzC03Srv) rngBit() (ok bool) { return zzC03Bit.Add(1)%2 == 0 }
 // ---------------------------------------------------------------- direction A
 
 var zzC03Qtypes = []uint16{dns.TypeA, dns.TypeAAAA, dns.TypeTXT, dns.TypeHTTPS, dns.TypeMX}
+
+// zzC03Install posts a history of configurations that ends with v: with a
+// seeded choice, v is preceded by the same lists respelled (ClientID entries
+// in the other letter case, patterns in another case; same order or shuffled)
+// and / or by v with its allow list emptied or, if v has none, filled.  What
+// must be in force afterwards is v alone, as posted last.  It returns v's
+// concrete lists and the status of the last post.
+func zzC03Install(z *zzC03Srv, c *zzC03Conc, v *zzC03Vec, rng *rand.Rand) (cl [3][]string, code int, body string) {
+	shuffle := func(x []string) {
+		rng.Shuffle(len(x), func(i, j int) { x[i], x[j] = x[j], x[i] })
+	}
+
+	hist := rng.Intn(6)
+	if hist == 3 || hist == 4 {
+		// Allow list emptied / filled first.
+		al, dis, hosts := c.lists(v)
+		if len(al) > 0 {
+			al = []string{}
+		} else {
+			al = []string{c.addr("v4", zzC03RandBits(rng, c.w)).String(), "anyone-" + fmt.Sprint(rng.Intn(9))}
+		}
+
+		_, _ = z.setAccess(al, dis, hosts)
+	}
+
+	if hist == 1 || hist == 2 || hist == 4 {
+		c.flipIDs = true
+		al, dis, hosts := c.lists(v)
+		c.flipIDs = false
+		if hist == 2 {
+			shuffle(al)
+			shuffle(dis)
+			shuffle(hosts)
+		}
+
+		_, _ = z.setAccess(al, dis, hosts)
+	}
+
+	al, dis, hosts := c.lists(v)
+	cl = [3][]string{al, dis, hosts}
+	code, body = z.setAccess(al, dis, hosts)
+
+	return cl, code, body
+}
 var zzC03Spells = []string{"plain", "mixed", "upper", "nodot"}
 
 func zzC03Forms(fam string) (forms []string) {
@@ -1203,7 +1266,7 @@ func zzC03Want(ex, hv int, proto string) (want []string) {
 	switch {
 	case ex == 1 || hv == 1:
 		return []string{zzC03Denial(proto)}
-	case hv == 2:
+	case ex == 2 || hv == 2:
 		return []string{zzC03Denial(proto), "served"}
 	default:
 		return []string{"served"}
@@ -1271,16 +1334,14 @@ func zzC03QtypeName(qt uint16) (s string) { return dns.TypeToString[qt] }
 // full selects every transport for every decision instead of a seeded one.
 func zzC03Sweep(z *zzC03Srv, u, v *zzC03Vec, rng *rand.Rand, full bool, rec *zzC03Rec) {
 	c := zzC03NewConc(rng, len(u.Addrs[0].Bits), false)
-	allowed, disallowed, hosts := c.lists(v)
-	cl := [3][]string{allowed, disallowed, hosts}
-	code, body := z.setAccess(allowed, disallowed, hosts)
+	cl, code, body := zzC03Install(z, c, v, rng)
 	if code != http.StatusOK {
 		rec.bad("set", v, cl, &zzC03AReq{Form: "plain"}, &zzC03Req{}, []string{"200"}, fmt.Sprintf("%d", code), map[string]any{"body": body})
 
 		return
 	}
 
-	nid := len(u.IDs)
+	nid, nq := len(u.IDs), len(u.Qtypes)
 
 	// run executes one request at handler level and compares; on a mismatch
 	// it is run a second time, alone, and for a non-plain form the plain form
@@ -1361,7 +1422,7 @@ func zzC03Sweep(z *zzC03Srv, u, v *zzC03Vec, rng *rand.Rand, full bool, rec *zzC
 					got, _ = z.s.IsBlockedClient(addr, c.id(id))
 				}
 
-				if got != (ex == 1) {
+				if ex != 2 && got != (ex == 1) {
 					extra := map[string]any{"ex": ex, "hv": 0}
 					if form != "plain" {
 						pg, _ := z.s.IsBlockedClient(c.addr(a.Fam, a.Bits), c.id(id))
@@ -1375,12 +1436,12 @@ func zzC03Sweep(z *zzC03Srv, u, v *zzC03Vec, rng *rand.Rand, full bool, rec *zzC
 				}
 
 				for _, proto := range pickProtos(id) {
-					ni := rng.Intn(len(u.Names))
+					ni, qi := rng.Intn(len(u.Names)), rng.Intn(nq)
 					run(&zzC03AReq{
 						Addr: a, Form: form, ID: id, IDCase: []string{"plain", "mixed", "upper"}[rng.Intn(3)],
 						Name: u.Names[ni], Spell: zzC03Spells[rng.Intn(len(zzC03Spells))],
-						Qtype: zzC03QtypeName(zzC03Qtypes[rng.Intn(len(zzC03Qtypes))]), Proto: proto,
-					}, ex, v.Hv[ni])
+						Qtype: u.Qtypes[qi], Proto: proto,
+					}, ex, v.Hv[ni*nq+qi])
 				}
 			}
 		}
@@ -1404,26 +1465,43 @@ func zzC03Sweep(z *zzC03Srv, u, v *zzC03Vec, rng *rand.Rand, full bool, rec *zzC
 		}
 	}
 
-	qtypes, spells := zzC03Qtypes, zzC03Spells
-	if !full && v.Universe != "hosts" {
-		qtypes, spells = qtypes[:1+rng.Intn(2)], []string{zzC03Spells[rng.Intn(len(zzC03Spells))]}
+	// Every (name, query type) is asked in a seeded order and then again in
+	// the reverse order, on the same live configuration: each query type of a
+	// name is asked both before and after the other types of that name, and the
+	// answer must not depend on what was asked before.
+	type nq2 struct{ ni, qi int }
+
+	var pairs []nq2
+	for _, j := range rng.Perm(len(u.Names) * nq) {
+		pairs = append(pairs, nq2{j / nq, j % nq})
 	}
 
-	for ni, n := range u.Names {
-		for _, qt := range qtypes {
-			for _, sp := range spells {
-				for _, k := range clients {
-					a, id := u.Addrs[k.ai], u.IDs[k.ii]
-					forms := zzC03Forms(a.Fam)
-					for _, proto := range pickProtos(id) {
-						run(&zzC03AReq{
-							Addr: a, Form: forms[rng.Intn(2)], ID: id, IDCase: []string{"plain", "mixed"}[rng.Intn(2)],
-							Name: n, Spell: sp, Qtype: zzC03QtypeName(qt), Proto: proto,
-						}, v.Ex[k.ai*nid+k.ii], v.Hv[ni])
-					}
+	spells := zzC03Spells
+	if !full && v.Universe != "hosts" {
+		pairs, spells = pairs[:16], []string{zzC03Spells[rng.Intn(len(zzC03Spells))]}
+	}
+
+	ask := func(p nq2) {
+		for _, sp := range spells {
+			for _, k := range clients {
+				a, id := u.Addrs[k.ai], u.IDs[k.ii]
+				forms := zzC03Forms(a.Fam)
+				for _, proto := range pickProtos(id) {
+					run(&zzC03AReq{
+						Addr: a, Form: forms[rng.Intn(2)], ID: id, IDCase: []string{"plain", "mixed"}[rng.Intn(2)],
+						Name: u.Names[p.ni], Spell: sp, Qtype: u.Qtypes[p.qi], Proto: proto,
+					}, v.Ex[k.ai*nid+k.ii], v.Hv[p.ni*nq+p.qi])
 				}
 			}
 		}
+	}
+
+	for _, p := range pairs {
+		ask(p)
+	}
+
+	for i := len(pairs) - 1; i >= 0; i-- {
+		ask(pairs[i])
 	}
 }
 
@@ -1505,16 +1583,14 @@ func zzC03Probe(z *zzC03Srv, v *zzC03Vec, cl [3][]string, c *zzC03Conc, rng *ran
 // transports.  The IPv4 universe is placed under 127.0.7.0/24.
 func zzC03Transports(z *zzC03Srv, u, v *zzC03Vec, rng *rand.Rand, rec *zzC03Rec) {
 	c := zzC03NewConc(rng, len(u.Addrs[0].Bits), true)
-	allowed, disallowed, hosts := c.lists(v)
-	cl := [3][]string{allowed, disallowed, hosts}
-	code, body := z.setAccess(allowed, disallowed, hosts)
+	cl, code, body := zzC03Install(z, c, v, rng)
 	if code != http.StatusOK {
 		rec.bad("set", v, cl, &zzC03AReq{Form: "plain"}, &zzC03Req{}, []string{"200"}, fmt.Sprintf("%d", code), map[string]any{"body": body})
 
 		return
 	}
 
-	nid := len(u.IDs)
+	nid, nq := len(u.IDs), len(u.Qtypes)
 
 	// Candidate clients by expected verdict; socket transports need IPv4.
 	type cli struct{ ai, ii int }
@@ -1531,8 +1607,9 @@ func zzC03Transports(z *zzC03Srv, u, v *zzC03Vec, rng *rand.Rand, rec *zzC03Rec)
 		return nil
 	}
 
+	// pickName returns an index into the (name, query type) table.
 	pickName := func(code int) (ni int) {
-		for _, j := range rng.Perm(len(u.Names)) {
+		for _, j := range rng.Perm(len(u.Names) * nq) {
 			if v.Hv[j] == code {
 				return j
 			}
@@ -1554,9 +1631,9 @@ func zzC03Transports(z *zzC03Srv, u, v *zzC03Vec, rng *rand.Rand, rec *zzC03Rec)
 		withID := idOK && rng.Intn(3) > 0
 		if cc := pick(1, v4only, withID); cc != nil {
 			// Excluded client, any name.
-			plans = append(plans, plan{cc, rng.Intn(len(u.Names))})
+			plans = append(plans, plan{cc, rng.Intn(len(u.Names) * nq)})
 		} else if cc = pick(1, v4only, !withID && idOK); cc != nil {
-			plans = append(plans, plan{cc, rng.Intn(len(u.Names))})
+			plans = append(plans, plan{cc, rng.Intn(len(u.Names) * nq)})
 		}
 
 		served := pick(0, v4only, withID)
@@ -1597,8 +1674,8 @@ func zzC03Transports(z *zzC03Srv, u, v *zzC03Vec, rng *rand.Rand, rec *zzC03Rec)
 
 			ar := &zzC03AReq{
 				Addr: a, Form: form, ID: id, IDCase: []string{"plain", "mixed", "upper"}[rng.Intn(3)],
-				Name: u.Names[pl.ni], Spell: []string{"plain", "mixed", "upper"}[rng.Intn(3)],
-				Qtype: zzC03QtypeName(zzC03Qtypes[rng.Intn(len(zzC03Qtypes))]), Proto: proto,
+				Name: u.Names[pl.ni/nq], Spell: []string{"plain", "mixed", "upper"}[rng.Intn(3)],
+				Qtype: u.Qtypes[pl.ni%nq], Proto: proto,
 			}
 			got := zzC03Probe(z, v, cl, c, rng, ar, v.Ex[pl.cc.ai*nid+pl.cc.ii], v.Hv[pl.ni], ctl, rec)
 			rec.counts["t:"+proto+":"+got]++
